@@ -542,6 +542,20 @@ func (p *Path) vpPrimitive(name string, fn *ssa.Function, args []Value) Value {
 		return ts.FCmpTheory(OFEq, args[0].(*Term), args[1].(*Term))
 	case "vpFpIsNaN32", "vpFpIsNaN64":
 		return ts.FIsNaNTheory(args[0].(*Term))
+	case "vpWord":
+		list := p.concreteInt(args[0], "word list")
+		i := p.concreteInt(args[1], "word index")
+		w, err := p.eng.word(list, i)
+		if err != nil {
+			p.abort(abInconclusive, "vpWord: %v", err)
+		}
+		return p.strConst(w)
+	case "vpRaceNative":
+		return ts.False
+	case "vpRunConcurrently":
+		p.callValue(args[0].(FuncV), nil)
+		p.callValue(args[1].(FuncV), nil)
+		return nil
 	case "vpRegister":
 		return nil
 	case "vpApi":
